@@ -181,7 +181,7 @@ func sameKey(a, b ssa.Value) (slice, idx ssa.Value, ok bool) {
 }
 
 // coversSites finds the reuse-condition tests of fn. isStored / isCurrent classify IntMap values of fn.
-func (c *Ctx) coversSites(fn *ssa.Function, isStored, isCurrent func(ssa.Value) bool, depth int) *coversInfo {
+func (c *Ctx) coversSites(fn *ssa.Function, isStored, isCurrent, isEntry func(ssa.Value) bool, depth int) *coversInfo {
 	info := &coversInfo{}
 	problem := func(at ssa.Instruction, s string) {
 		info.problems = append(info.problems, s)
@@ -203,9 +203,17 @@ func (c *Ctx) coversSites(fn *ssa.Function, isStored, isCurrent func(ssa.Value) 
 			h := cl.Call.StaticCallee()
 			if h != nil && !cl.Call.IsInvoke() && c.P.InLib(h) && len(h.Blocks) > 0 && h.Signature.Results().Len() == 1 {
 				if bt, ok := h.Signature.Results().At(0).Type().Underlying().(*types.Basic); ok && bt.Kind() == types.Bool {
-					hs := func(v ssa.Value) bool { return paramBoundTo(h, cl, v, isStored) }
+					he := func(v ssa.Value) bool { return paramBoundTo(h, cl, v, isEntry) }
+					hs := func(v ssa.Value) bool {
+						if paramBoundTo(h, cl, v, isStored) {
+							return true
+						}
+						// the helper is handed the entry itself and reads its stored context
+						base, name, isLoad := fieldLoad(ssax.Strip(v))
+						return isLoad && name == "LeftRecCtx" && he(base)
+					}
 					hc := func(v ssa.Value) bool { return paramBoundTo(h, cl, v, isCurrent) }
-					hi := c.coversSites(h, hs, hc, depth+1)
+					hi := c.coversSites(h, hs, hc, he, depth+1)
 					if len(hi.sites) > 0 || len(hi.problems) > 0 {
 						if len(hi.problems) > 0 {
 							problem(hi.probAt, hi.problems[0])
@@ -445,7 +453,7 @@ func (c *Ctx) checkCacheGet(rule string) {
 		return isLoad && name == "LeftRecCtx" && isEntry(base)
 	}
 	isCurrent := func(v ssa.Value) bool { return ssax.Strip(v) == ssa.Value(L) }
-	info := c.coversSites(get, isStored, isCurrent, 0)
+	info := c.coversSites(get, isStored, isCurrent, func(v ssa.Value) bool { return ssax.Strip(v) == entry }, 0)
 	if len(info.problems) > 0 {
 		at := c.P.Pos(get.Pos())
 		if info.probAt != nil {
